@@ -187,6 +187,9 @@ def run(ctx):
             if "zoo" in mt and pid == "zoo_" + mt["zoo"] and all(re.search(mt.get("class_regex", "."), b) for b in bad): hit = f["id"]
             if "class_regex" in mt and "zoo" not in mt and "rules" not in mt and all(re.search(mt["class_regex"], b) for b in bad) \
                     and ("program_has" not in mt or PROGRAM_HAS[mt["program_has"]](progs[pid])): hit = f["id"]
+            if "program_regex" in mt and re.search(mt["program_regex"], pid) and \
+                    all(b.startswith("VM:") and any(e in ("vm", "nano_vm") for e in mt.get("engines", [])) or
+                        b.startswith("native:") and "native" in mt.get("engines", []) for b in bad): hit = f["id"]
             if "rules" in mt and pid in what and what[pid]["rule"] in mt["rules"] and re.search(mt.get("what_regex", "."), what[pid]["what"]): hit = f["id"]
         if hit:
             ctx.known(hit, "%s: %s" % (pid, "; ".join(bad)[:150])); stats["known:" + hit] += 1
